@@ -1636,6 +1636,7 @@ class Message_Router( Object ):
             if ( ids[0] == self.class_id and ids[1] == self.instance_id ):
                 return None
             target		= lookup( *ids )
+            assert target is not None, "No such CIP Object: %r" % ( ids, )
         except Exception:
             # The resolution/lookup fails (eg. bad symbolic Tag); Either ignore it (return False)
             # and continue processing, so we can return a proper .status error code from the actual
